@@ -19,7 +19,8 @@ EXPLANATION = (
     "lexer never matches an ASCII letter constant exactly; (R7) two characters of program text are "
     "never compared (order or equality) without case folding; (R10) every parser function that recognises the end of a line as the end of something recognises a colon too, or is tabled with the reason a colon is no alternative there; (R11) no token rule of the lexer raises a fatal error, because the lexer also tokenises comment and string text; (R12) every use of the one-token end-of-statement lookahead skips optional blanks first; (R13) the guard of the CR LF look-ahead in create_row_col_view is exactly `the next character exists` (not stronger); (R14) the parenthesis-only parser is used by the list of primary expressions only, so an operand that starts with `(` directly after a keyword is still a whole expression; (R15) every parser that consumes a line end as a separator is followed by the repetition that skips blank lines and indentation; (R16) the label parser accepts the name and the colon only when adjacent (no optional part before the colon in its combinator type), so `Name : Next` stays a call followed by a separator; (R17) only the functions the Eol token is made of, and the row/column table, contain a CR or LF character constant - nothing else decides where a line ends."
     " (R2, extended) the scan for case-sensitive text comparisons includes the crate of the case-insensitive string type itself."
-    " (R18) no set or map of the front end and the VM is keyed by raw text (`&str` / `String`); (R19) the characters that may follow a keyword include the lexer's blank class and both line-end characters (truth tables over ASCII).")
+    " (R18) no set or map of the front end and the VM is keyed by raw text (`&str` / `String`); (R19) the characters that may follow a keyword include the lexer's blank class and both line-end characters (truth tables over ASCII)."
+    " (R20) every parser made from a token class that contains ':' is followed through the combinators and functions it is handed to until it stands behind optional blanks; in a sequence or delimited list it never follows a parser that does not skip them (the label parser, where the colon is adjacent, excepted).")
 NOT_DECIDED = [
     "equality of parse trees under layout transformations (blanks, comments, colon vs newline)",
     "row counting in create_row_col_view beyond the CR / LF guards and the tightness of the CR LF look-ahead guard (R13)",
